@@ -14,3 +14,5 @@ import PeptVerif.Props.C02
 #print axioms Pept.C02.avg_keys_ok
 #print axioms Pept.C02.mass_eq_spec_adducts
 #print axioms Pept.C02.adductDefect_counts_one
+#print axioms Pept.C02.nuclide_keys_close
+#print axioms Pept.C02.reference_closeness
